@@ -87,13 +87,30 @@ type Marker struct {
 	Text string
 }
 
+// Keeper is soft-deletable and has a relation of its own; Thing belongs to a
+// Keeper.  No hooks.  (The shared-handle check joins Things with their Keeper
+// while another goroutine makes first use of Keeper.)
+type Keeper struct {
+	ID        uint `gorm:"primarykey"`
+	Name      string
+	DeletedAt gorm.DeletedAt `gorm:"index"`
+	Things    []Thing
+}
+
+type Thing struct {
+	ID       uint `gorm:"primarykey"`
+	Name     string
+	KeeperID *uint
+	Keeper   *Keeper
+}
+
 // AllModels lists every model (migration order).
 func AllModels() []interface{} {
-	return []interface{}{&Company{}, &Language{}, &User{}, &Account{}, &Pet{}, &Toy{}, &Note{}, &KV{}, &Marker{}, &Gadget{}}
+	return []interface{}{&Company{}, &Language{}, &User{}, &Account{}, &Pet{}, &Toy{}, &Note{}, &KV{}, &Marker{}, &Gadget{}, &Keeper{}, &Thing{}}
 }
 
 // Tables lists every table, join tables included (dump order).
-var Tables = []string{"companies", "languages", "users", "accounts", "pets", "toys", "user_languages", "user_friends", "notes", "kvs", "markers", "gadgets"}
+var Tables = []string{"companies", "languages", "users", "accounts", "pets", "toys", "user_languages", "user_friends", "notes", "kvs", "markers", "gadgets", "keepers", "things"}
 
 // ---------------------------------------------------------------- hooks
 
